@@ -2,14 +2,14 @@
 from lib import *
 import typegen as tg
 
-KINDS = ["slice", "cursor_slice", "cursor_array", "cursor_box", "vec", "io_vec"]
+KINDS = ["slice", "cursor_slice", "cursor_array", "cursor_box", "vec", "io_vec", "io_slice", "io_trickle"]
 ARR_CAPS = set(list(range(0, 41)) + [48, 64, 128, 256, 300])
 RULE = ("SINK <kind> <cap> <chunks>: a sequence of raw write_all calls (chunk lengths 0..=cap+1, exhaustive for small capacities) on each "
-        "of the six sink kinds; SINKE <kind> <cap> <type> <value>: a registry value encoded with the real Encoder into a sink of every "
+        "of the eight sink kinds (the five of the property; the io adapter over a Vec, over std's bounded slice writer, and over a writer accepting one byte per call); SINKE <kind> <cap> <type> <value>: a registry value encoded with the real Encoder into a sink of every "
         "capacity 0..=len+1. Real sinks (with canary bytes around every bounded buffer) vs the Coq sink model applied to the model's "
         "chunk list. O=: ok iff the encoding fits, content is a prefix of the encoding, position == bytes accepted, nothing outside "
         "the sink or beyond the position modified, success => content == encoding. Non-trivial: capacity within 2 of the output size.")
-ASSUMPTIONS = ["the io::Write sink is a Vec behind minicbor's Writer adapter (std's own bounded writers write partial chunks by design)",
+ASSUMPTIONS = ["std's bounded slice writer behind the io adapter copies the part of a chunk that fits before failing (std behaviour): its content is a prefix, not chunk-aligned (C13_io_bounded)",
                "Cursor<[u8; N]> is exercised for the capacities compiled into the harness (0..=40, 48, 64, 128, 256, 300)"]
 
 def generate(tier, rng):
